@@ -277,5 +277,74 @@ def _has_param(sv, F, name):
     return walk(sv)
 
 
-RULES = [r13_1, r13_2, r13_3, r13_4, r13_5, r13_6]
-FLOORS = {"R13.1": 30, "R13.2": 100, "R13.3": 10, "R13.4": 10, "R13.5": 3, "R13.6": 20}
+def _mask_of(F, e):
+    """mask (template argument) of the marked_ptr a bits() call is applied to"""
+    o = F.deref(e.node.get("obj")) if e.node is not None and e.node.get("obj") is not None else None
+    t = (o or {}).get("t") or ""
+    m = re.search(r"marked_ptr<.*,\s*(\d+)\s*>\s*(const)?\s*&?$", t.strip())
+    return int(m.group(1)) if m else None
+
+
+def r13_7(ctx):
+    """MichaelList::search positions on / compares with a node only after it established that the node carries NO deletion mark (every mark bit
+    clear): a node marked by erase *or* extract is helped out or skipped, never reported as the position"""
+    n = 0
+    for F in ctx.db.funcs.values():
+        if not re.match(r"cds::intrusive::MichaelList::search$", F.q):
+            continue
+        try:
+            ps = PathSim(F, bound=6000).run()
+        except PathBoundExceeded:
+            ctx.broken("path bound exceeded in %s" % F.q)
+            continue
+        for p in ps:
+            ev = p.events
+            cmps = [i for i, e in enumerate(ev) if e.kind == "call" and e.q and e.q.endswith("operator()") and len(e.args) == 2 and
+                    any(_has_call(a, ev, "to_value_ptr") for a in e.args)]
+            if not cmps:
+                continue
+            i = cmps[-1]
+            bits = [(j, e) for j, e in enumerate(ev[:i]) if e.kind == "call" and e.q and e.q.endswith("marked_ptr::bits")]
+            if not bits:
+                continue
+            n += 1
+            clear = False
+            why = "no decision on the mark bits before the comparison"
+            for atom, tv, bev in cond_atoms(p):
+                if ev.index(bev) > i:
+                    continue
+                for j, be in bits:
+                    if atom == be.val:
+                        clear = (tv is False)
+                        why = "bits() tested as a whole"
+                    elif isinstance(atom, tuple) and atom[:2] == ("op", "==") and be.val in atom[2:4]:
+                        k = [x for x in atom[2:4] if x != be.val][0]
+                        mask = _mask_of(F, be)
+                        if isinstance(k, tuple) and k[:1] == ("c",):
+                            if k[1] == 0:
+                                clear = (tv is True)
+                            elif tv is False and mask is not None and set(range(mask + 1)) - {k[1]} == {0}:
+                                clear = True
+                            else:
+                                clear = False
+                            why = "bits() compared with %s (mark mask %s)" % (k[1], mask)
+            ctx.check(clear, "R13.7", F, "search compares / positions on a node only after finding every deletion-mark bit of its next link clear", ev[i].node,
+                      detail="%s. A node marked for extraction (or erase) that is taken for a live one stays linked: the key remains visible after a successful "
+                      "extract/erase. %s" % (why, R), sig="position-on-unmarked")
+    if n < 4:
+        ctx.broken("MichaelList::search comparison sites not found (%d)" % n)
+r13_7.rule_id = "R13.7"
+
+
+def _has_call(sv, ev, suffix, d=0):
+    if d > 6:
+        return False
+    if isinstance(sv, tuple):
+        if sv[:1] == ("call",) and str(sv[1]).endswith(suffix):
+            return True
+        return any(_has_call(x, ev, suffix, d + 1) for x in sv if isinstance(x, tuple))
+    return False
+
+
+RULES = [r13_1, r13_2, r13_3, r13_4, r13_5, r13_6, r13_7]
+FLOORS = {"R13.1": 30, "R13.2": 100, "R13.3": 10, "R13.4": 10, "R13.5": 3, "R13.6": 20, "R13.7": 4}
